@@ -142,6 +142,10 @@ def env_class(texts, env) -> str:
     import re
     if pv_long_operand(texts):
         return "pv-long-operand|"
+    for var in ("python_full_version", "implementation_version", "platform_release"):
+        val = env.get(var)
+        if isinstance(val, str) and re.search(r"(a|b|rc|dev|post)\d*$", val):
+            return "nonfinal-env|"
     for t in texts:
         for var, lst in re.findall(r'(python_version|python_full_version) (?:not in|in) "([^"]*)"', t or ""):
             val = env.get(var)
